@@ -16,7 +16,7 @@ pub fn property() -> Property {
     Property {
         id: "C06",
         level: "fault_enumeration",
-        rule: "Payloads (empty, 1 byte, text, incompressible, highly repetitive up to 1 MiB, > 64 KiB) are compressed by reference encoders (flate2 levels 0-9 => stored and dynamic blocks; hand-written encoder => stored and fixed-Huffman blocks; gzip headers with FNAME/FCOMMENT/FEXTRA/FHCRC) and served with coding declarations in any letter case, alone or in a list, in Content-Encoding or Transfer-Encoding, under every framing, segmentation and read plan; unknown codings (br, identity, x-gzip, none) must pass through byte-for-byte; the Accept-Encoding field on the wire must be present iff compression is allowed. Faults: EVERY truncation offset of the compressed stream of 10 fixed streams (exhaustive; framing adjusted so that only the compression layer can notice - with Content-Length framing the REST of the compressed stream follows the frame on the connection and must not reach the decoder -, or left short), EVERY single-bit flip of the 8 gzip trailer bytes, bit flips in the deflate body (gzip: Err or identical payload). Oracle: payload is ground truth; prefix rule after every read; damaged stream must end with Err. Non-trivial: compressed stream non-empty; distinct = hash(wire, fault, segmentation, plan).",
+        rule: "Payloads (empty, 1 byte, text, incompressible, highly repetitive up to 1 MiB, > 64 KiB) are compressed by reference encoders (flate2 levels 0-9 => stored and dynamic blocks; hand-written encoder => stored and fixed-Huffman blocks; gzip headers with FNAME/FCOMMENT/FEXTRA/FHCRC) and served with coding declarations in any letter case, alone or in a list, in Content-Encoding or Transfer-Encoding, under every framing, segmentation and read plan, for requests made with default settings, with allow_compression(false) on the request / session / prepared request, and with POST and DELETE (decoding depends only on what the response declares); unknown codings (br, identity, x-gzip, none) must pass through byte-for-byte; the Accept-Encoding field on the wire must be present iff compression is allowed. Faults: EVERY truncation offset of the compressed stream of 10 fixed streams (exhaustive; framing adjusted so that only the compression layer can notice - with Content-Length framing the REST of the compressed stream follows the frame on the connection and must not reach the decoder -, or left short), EVERY single-bit flip of the 8 gzip trailer bytes, bit flips in the deflate body (gzip: Err or identical payload); json()/json_utf8() against every trailer bit flip and every cut inside the trailer of a gzip-coded JSON document. Oracle: payload is ground truth; prefix rule after every read; damaged stream must end with Err. Non-trivial: compressed stream non-empty; distinct = hash(wire, fault, segmentation, plan).",
         assumptions: &["zlib-wrapped deflate and multi-member gzip are not generated (not fixed by the statement)", "flips inside a raw deflate body are not judged (no integrity check exists there)"],
         min_nontrivial: |t| t.pick(3_000, 60_000),
         gens,
@@ -30,6 +30,7 @@ fn gens(tier: Tier) -> Vec<Gen> {
         Gen { name: "roundtrip", count: tier.pick(2_500, 120_000), exhaustive: false, run: run_roundtrip },
         Gen { name: "truncate", count: truncate_count(), exhaustive: true, run: run_truncate },
         Gen { name: "trailer-bits", count: (N_FIXED_GZ * 64 * 2) as u64, exhaustive: true, run: run_trailer },
+        Gen { name: "json-gzip", count: (72 * 3 * 2) as u64, exhaustive: true, run: run_json_gzip },
         Gen { name: "body-flips", count: tier.pick(1_500, 40_000), exhaustive: false, run: run_bodyflip },
         Gen { name: "big", count: tier.pick(24, 600), exhaustive: false, run: run_big },
     ]
@@ -246,7 +247,24 @@ pub fn run_case(ctx: &mut Ctx, rng: &mut Rng, c: &Case, label: &str) {
             c.plan.describe()
         )
     };
-    let resp = match RequestBuilder::new(Method::GET, "http://origin.test/c06").send() {
+    // how the request is made: the statement is about what the RESPONSE declares, so decoding
+    // does not depend on whether this request announced Accept-Encoding, nor on the method
+    let how = rng.below(6);
+    let url = "http://origin.test/c06";
+    let sent = match how {
+        0 | 1 => RequestBuilder::new(Method::GET, url).send(),
+        2 => RequestBuilder::new(Method::GET, url).allow_compression(false).send(),
+        3 => {
+            let mut s = attohttpc::Session::new();
+            s.allow_compression(false);
+            s.get(url).send()
+        }
+        4 => RequestBuilder::new(Method::POST, url).text("x").send(),
+        _ => RequestBuilder::new(Method::DELETE, url).allow_compression(false).prepare().send(),
+    };
+    ctx.count(["request_default", "request_default", "request_compression_not_allowed", "session_compression_not_allowed", "request_post", "request_delete_prepared_compression_not_allowed"][how as usize], 1);
+    let descr = |extra: &str| format!("{}; request variant {how}", descr(extra));
+    let resp = match sent {
         Ok(r) => r,
         Err(e) => {
             ctx.violation("send-failed", descr(&format!("send() failed: {e:?}")));
@@ -487,4 +505,24 @@ fn run_big(ctx: &mut Ctx, rng: &mut Rng, index: u64) {
     let truncate_to = if index % 4 == 3 { Some(rng.range(0, enc.stream.len().saturating_sub(1))) } else { None };
     let c = Case { payload, enc, headers, framing, truncate_to, framing_adjusted: true, flip: None, seg_class: if rng.bool() { 0 } else { 2 }, plan: rng.pick(&[ReadPlan::Bytes, ReadPlan::Loop { sizes: vec![65536], via_split: false }, ReadPlan::WriteTo]).clone() };
     run_case(ctx, rng, &c, "big");
+}
+
+/// the JSON helpers are readers of the decoded body too: damage that lies behind the last
+/// payload byte (every bit of the gzip trailer flipped, every cut inside the trailer) is an error
+fn run_json_gzip(ctx: &mut Ctx, rng: &mut Rng, index: u64) {
+    let fault = index % 72;
+    let framing = Framing::ALL[((index / 72) % 3) as usize];
+    let utf8 = (index / 216) % 2 == 1;
+    if crate::framework::miri_mode() && !utf8 {
+        ctx.gray();
+        return;
+    }
+    let payload = br#"{"a":[1,2,"x"],"b":{"c":null},"d":"0123456789012345678901234567890123456789"}"#.to_vec();
+    let mut erng = Rng::new(0xC06_15 + fault % 5);
+    let mut sink = Ctx::new("C06", Tier::Quick, 0);
+    let enc = encode(&mut erng, &mut sink, Coding::Gzip, &payload);
+    let (truncate_to, flip) = if fault < 64 { (None, Some((enc.trailer_at + (fault / 8) as usize, 1u8 << (fault % 8)))) } else { (Some(enc.trailer_at + (fault - 64) as usize), None) };
+    ctx.count("json_reader_cases", 1);
+    let c = Case { payload, enc, headers: vec![("Content-Encoding".into(), b"gzip".to_vec()), ("Content-Type".into(), b"application/json; charset=utf-8".to_vec())], framing, truncate_to, framing_adjusted: true, flip, seg_class: (fault % 3) as u8, plan: ReadPlan::Json(utf8) };
+    run_case(ctx, rng, &c, "json-gzip");
 }
